@@ -7,6 +7,7 @@ import (
 	"go/printer"
 	"go/token"
 	"os"
+	"path/filepath"
 	"regexp"
 
 	"github.com/reedom/convergen/pkg/builder"
@@ -45,11 +46,13 @@ func NewParser(srcPath, dstPath string) (*Parser, error) {
 	}
 
 	dstStat, _ := os.Stat(dstPath)
+	overlay := hideOldOutput(srcPath, dstPath, dstStat)
 	var parseErr error
 	cfg := &packages.Config{
 		Mode:       parserLoadMode,
 		BuildFlags: []string{"-tags", buildTag},
 		Fset:       fileSet,
+		Overlay:    overlay,
 		ParseFile: func(fset *token.FileSet, filename string, src []byte) (*ast.File, error) {
 			stat, err := os.Stat(filename)
 			if err != nil {
@@ -93,6 +96,34 @@ func NewParser(srcPath, dstPath string) (*Parser, error) {
 		opts:    option.NewOptions(),
 		imports: util.NewImportNames(fileSrc.Imports),
 	}, nil
+}
+
+// hideOldOutput returns a package loader overlay that hides what a previous (possibly interrupted) run
+// left at the output path: the loader reads the package clause and the imports of every file in the
+// directory before ParseFile gets a say, so a truncated or stale output file could make the load fail.
+// The old output is replaced by an empty file of the setup file's package.
+func hideOldOutput(srcPath, dstPath string, dstStat os.FileInfo) map[string][]byte {
+	if dstStat == nil {
+		return nil
+	}
+	absSrc, err := filepath.Abs(srcPath)
+	if err != nil {
+		return nil
+	}
+	absDst, err := filepath.Abs(dstPath)
+	if err != nil {
+		return nil
+	}
+	if filepath.Dir(absSrc) != filepath.Dir(absDst) {
+		// The output belongs to another package.
+		return nil
+	}
+	clause, err := parser.ParseFile(token.NewFileSet(), srcPath, nil, parser.PackageClauseOnly)
+	if err != nil {
+		// Loading the package reports what is wrong with the setup file.
+		return nil
+	}
+	return map[string][]byte{absDst: []byte("package " + clause.Name.Name + "\n")}
 }
 
 // Parse parses convergen annotations in the source code.
